@@ -1,9 +1,11 @@
-\* faithful transcription of glom()'s except blocks (Fix = FALSE is set by the harness);
-\* the laws listed here hold on it; ClassKept / GlomIfRebuildable are checked in MC_C04_laws.cfg
+\* the transcription of glom()'s except blocks (Mutant = "none", set by the harness together with the
+\* bounds) against every law of C04; the same run is dumped for the replay into the real library
 INIT Init
 NEXT Next
 INVARIANT CatalogueOK
 INVARIANT VerdictConsistent
+INVARIANT InvClassKept
+INVARIANT InvGlomIfRebuildable
 INVARIANT InvSubtype
 INVARIANT InvDefaultSelective
 INVARIANT InvDebug
